@@ -5,7 +5,8 @@ From V.lib Require Import Base.
 From V.c13 Require Import C13Spec C13Model.
 From V.c15 Require Import C15Model C15Spec C15BitProofs C15AvcSpsProofs C15AvcPpsProofs
   C15HevcModel C15HevcSpec C15HevcBitProofs C15HevcSpsRpsProofs C15HevcPpsProofs C15HevcSliceBaseProofs
-  C15HevcSliceRpsProofs C15HevcSliceInterProofs C15HevcSliceMainProofs C15HevcSliceExamples.
+  C15HevcSliceRpsProofs C15HevcSliceInterProofs C15HevcSliceMainProofs C15HevcSliceSizeProofs
+  C15HevcSliceExamples.
 
 Local Notation "x <- m ;; k" := (bind m (fun x => k))
   (at level 61, m at next level, right associativity).
@@ -211,6 +212,17 @@ Proof.
   unfold run, ret. f_equal.
   subst n. rewrite <- hslice_size_bits_eq. rewrite (hu32_id _ Hsz).
   reflexivity.
+Qed.
+
+Lemma hevc_slice spsmap ppsmap sp pp v :
+  hsps_valid sp = true -> hpps_valid pp = true -> hslice_valid sp pp v = true ->
+  hslice_rps_guard sp pp v = true ->
+  ppsmap (sx_slice_pic_parameter_set_id v) = Some (expected_hpps pp) ->
+  spsmap (sx_pps_seq_parameter_set_id pp) = Some (expected_hsps sp) ->
+  hparse_slice_br spsmap ppsmap (hnalu_slice sp pp v) = Ok (expected_hslice sp pp v).
+Proof.
+  intros Hs Hp Hv Hg Hpm Hsm.
+  apply hevc_slice_sz; try assumption. apply hslice_size_lt; assumption.
 Qed.
 
 (* ------------------------------------------------------------------ the known finding C15-F11 *)
